@@ -29,5 +29,6 @@ grep -q "=> $base/repo" "$base/verif/harness/go.mod" || { echo "cannot retarget 
 for p in "$@"; do
   out=$(cd "$base/verif" && VERIF_REPO="$base/repo" VERIF_SEED=${VERIF_SEED:-1} ./check "$p" --tier ${TIER:-quick} 2>&1)
   rc=$?
-  echo "== $p rc=$rc $(echo "$out" | grep -v 'rapid\] draw' | grep 'VIOLATION C\|VIOLATION property\|OK property\|INCONCLUSIVE' | head -2 | cut -c1-260 | tr '\n' ' ')"
+  detail=$(grep -h "VIOLATION C" "$base"/verif/out/$p-*.log 2>/dev/null | grep -v "rapid\] failed" | head -1 | cut -c1-300)
+  echo "== $p rc=$rc $(echo "$out" | grep 'VIOLATION property\|OK property\|INCONCLUSIVE' | head -1 | cut -c1-200) $detail"
 done
